@@ -858,6 +858,40 @@ def annotation_docs():
             ("anno_single", {"main.thrift": ANNO_LIB}, "main.thrift")]
 
 
+def split_name_docs():
+    """directed documents for split mode (one file per item, named {kind}_{name}.rs, case-insensitively unique per module): items of
+    every kind whose names collide ignoring case (2-way and 3-way) TOGETHER with items literally named like the suffixed forms
+    (X_2, x_2, X_2_2, x_3), in three declaration orders.  -> [(name, Doc)]"""
+    fl = lambda i, n, t, req="": dict(id=i, name=n, ty=t, req=req, default=None, annos=[])
+    i32, s = ("base", "i32"), ("base", "string")
+
+    def items():
+        st = lambda n, k: dict(kind="struct", name=n, complete=True, annos=[], fields=[fl(1, "f%d" % k, i32), fl(2, "g", s, "optional")])
+        ex = lambda n, k: dict(kind="exception", name=n, complete=True, annos=[], fields=[fl(1, "why%d" % k, s)])
+        en = lambda n, k: dict(kind="enum", name=n, complete=True, members=[("A%d" % k, 0), ("B%d" % k, k + 1)])
+        un = lambda n, k: dict(kind="union", name=n, complete=True, annos=[], fields=[fl(1, "a%d" % k, i32), fl(2, "b", s)])
+        td = lambda n, k: dict(kind="typedef", name=n, ty=("list", ("base", "i64")) if k % 2 else s, complete=True, annos=[])
+        co = lambda n, k: dict(kind="const", name=n, ty=i32, value=str(k))
+        sv = lambda n, k: dict(kind="service", name=n, extends=None, methods=[
+            dict(name="ping%d" % k, args=[fl(1, "x", i32)], ret=i32, throws=[], oneway=False)])
+        out = []
+        # messages (struct + exception share the prefix `message`): 3-way collision + the literal suffixed forms
+        out += [st("Ab", 0), st("ab", 1), ex("AB", 2), st("Ab_2", 3), st("ab_2", 4), ex("Ab_2_2", 5), st("ab_3", 6)]
+        # enums (enum + union share the prefix `enum`): 2-way + suffixed forms
+        out += [en("Mode", 0), un("MODE", 1), en("Mode_2", 2), un("MODE_2", 3), en("Mode_3", 4)]
+        # typedefs (new_type), consts, services
+        out += [td("Tag", 0), td("TAG", 1), td("Tag_2", 2), td("TAG_2_2", 3)]
+        out += [co("Limit", 0), co("LIMIT", 1), co("LIMIT_2", 2), co("Limit_2", 3), co("Limit_3", 4)]
+        out += [sv("Svc", 0), sv("svc", 1), sv("SVC", 2), sv("svc_2", 3), sv("Svc_2", 4), sv("svc_3", 5)]
+        return out
+    docs = []
+    for tag, order in (("decl", lambda l: l), ("rev", lambda l: list(reversed(l))), ("mix", lambda l: l[1::2] + l[0::2])):
+        d = Doc()
+        d.files.append(dict(name="main.thrift", ns=["sn", tag], includes=[], items=order(items()), other_ns=False))
+        docs.append(("split_names_" + tag, d))
+    return docs
+
+
 def gen_thrift_doc(rng, **kw):
     return ThriftGen(rng, **kw).gen()
 
